@@ -42,6 +42,10 @@ Run(s, p, out, res, fout, fres) ==
                   !.seen = [q \in (DOMAIN s.seen) \cup {p} |-> IF q = p THEN [stack |-> res.stack, calls |-> res.calls] ELSE s.seen[q]]]}
   ELSE {}
 
+\* a closure outlives the run that created it: called in a later run it still finds the last values of the variables it
+\* captured (here: locals of `main` of the earlier run), and the later run's own locals are untouched (C06)
+Persist(s, made, ok, got, want, cgot, cwant) == IF made /\ ok /\ got = want /\ cgot = cwant THEN {s} ELSE {}
+
 \* model-checking configuration: abstract residues
 Res(a, b) == [stack |-> a, calls |-> b, globals |-> 0, objects |-> 0, upvals |-> 0, allocated |-> 0, next_gc |-> 100, live |-> 0]
 Init == st = New
